@@ -15,22 +15,24 @@ NS == Len(Facts.schemas)
 FInit == c \in UNION {[f : Faults, fv : Range(Facts.schemas[k].fvs), s : {k}] : k \in 1..NS}
 FSpec == FInit /\ [][Next]_c
 Sch == Facts.schemas[c.s]
-Covered == /\ WF(c.fv) /\ c.fv.gen = Sch.S.gen
+SN == [k \in 1..NS |-> Norm(Facts.schemas[k].S)]      \* constant: evaluated once
+SS == SN[c.s]
+Covered == /\ WF(c.fv) /\ c.fv.gen = SS.gen
            /\ Applicable(c.f, c.fv) => Cardinality(Match(c.f, c.fv)) = 1
 \* every attribute a released schema uses is declared for the section it is used in
-DomainsClean == \A u \in Range(Sch.usage) : InDomain(Sch.S, u.sec, u.attr)
+DomainsClean == \A u \in Range(Sch.usage) : InDomain(SS, u.sec, u.attr)
 \* in the 8.3 generation the existence rules are carried by the declared ranges of the attributes
-HasProp(S, a, p) == a \in DOMAIN S.decl /\ p \in Range(S.decl[a])
-RangesDeclared == Sch.S.gen = "v83" =>
-     /\ HasProp(Sch.S, "unitClass", "unitClassRange") /\ HasProp(Sch.S, "valueClass", "valueClassRange")
-     /\ HasProp(Sch.S, "suggestedTag", "tagRange") /\ HasProp(Sch.S, "relatedTag", "tagRange")
-     /\ HasProp(Sch.S, "defaultUnits", "unitRange") /\ HasProp(Sch.S, "conversionFactor", "numericRange")
+HasProp(S, a, p) == a \in DOMAIN S.decl /\ p \in S.decl[a]
+RangesDeclared == SS.gen = "v83" =>
+     /\ HasProp(SS, "unitClass", "unitClassRange") /\ HasProp(SS, "valueClass", "valueClassRange")
+     /\ HasProp(SS, "suggestedTag", "tagRange") /\ HasProp(SS, "relatedTag", "tagRange")
+     /\ HasProp(SS, "defaultUnits", "unitRange") /\ HasProp(SS, "conversionFactor", "numericRange")
 \* --- generation: the domain table of every bundled schema, as TLC computes it (the driver picks misplaced attributes from it)
 GInit == c \in [f : {"undeclaredAttr"}, s : 1..NS,
                  fv : {[sec |-> x, ph |-> FALSE, kids |-> FALSE, sibs |-> FALSE, lib |-> FALSE, dep |-> FALSE, gen |-> "old"] : x \in Sections}]
 GSpec == GInit /\ [][Next]_c
-AllAttrs(S) == DOMAIN S.decl \cup Range(S.props)
+AllAttrs(S) == DOMAIN S.decl \cup S.props
 Emit == PrintT("@@EMIT@@" \o ToJson([schema |-> Sch.name, sec |-> c.fv.sec,
-                                     indomain |-> {a \in AllAttrs(Sch.S) : InDomain(Sch.S, c.fv.sec, a)}]))
+                                     indomain |-> {a \in AllAttrs(SS) : InDomain(SS, c.fv.sec, a)}]))
 AllowedCharsKnown == \A v \in Range(Sch.chars) : v \in AllowedCharNames \/ Len(v) = 1
 ====
